@@ -393,6 +393,7 @@ func c01Run(w *run.Worker) {
 	})
 	// (v): a point-mutating builtin followed by a reader of the same or another key
 	c01Sequences(w)
+	c01SelfRef(w)
 	// (iii): every builtin x every argument shape its checker accepts
 	names := c01BuiltinNames()
 	alpha := c01ArgAlphabet()
@@ -513,6 +514,58 @@ func c01RunWrapped(w *run.Worker, stmt *rt.Node) bool {
 	return c01RunSrc(w, src, true)
 }
 
+// c01SelfRef: statements that would make a list or map contain itself (directly, at depth, through
+// another container), followed by every consumer of a value: the run reports an error or goes on, it
+// does not overflow the stack or walk the value for ever.
+func c01SelfRef(w *run.Worker) {
+	I, S, Id := rt.Int, rt.Str, rt.Id
+	makers := [][]*rt.Node{
+		{rt.Assign("=", rt.Index("l", I(0)), Id("l"))},
+		{rt.Assign("=", rt.Index("l", I(2), I(0)), Id("l"))},
+		{rt.Assign("=", rt.Index("m", S("k")), Id("m"))},
+		{rt.Assign("=", rt.Index("m", S("k")), Id("l")), rt.Assign("=", rt.Index("l", I(0)), Id("m"))},
+		{rt.Assign("=", Id("x"), rt.List(Id("l"))), rt.Assign("=", rt.Index("l", I(0)), Id("x"))},
+		{rt.Assign("=", rt.Index("m", S("k")), rt.List(rt.Map(S("j"), Id("m"))))},
+		{rt.Assign("+=", rt.Index("l", I(2)), Id("l"))},
+		{rt.AssignN([]*rt.Node{rt.Index("l", I(0)), Id("y")}, []*rt.Node{Id("l"), I(1)})},
+	}
+	consumers := func(k string) []*rt.Node {
+		return []*rt.Node{
+			rt.Call("strfmt", Id("out"), S("%v|%s|%d"), Id(k), Id(k), Id(k)),
+			rt.Call("printf", S("%v\n"), Id(k)),
+			rt.Call("cast", Id(k), S("str")),
+			rt.Call("cast", Id(k), S("int")),
+			rt.Call("add_key", Id("k2"), Id(k)),
+			rt.Call("set_tag", Id("t9"), Id(k)),
+			rt.Call("p", rt.Call("len", Id(k)), rt.Bin("==", Id(k), Id(k)), rt.In(Id(k), rt.List(Id(k)))),
+			rt.ForIn("v", Id(k), rt.Block(rt.Call("p", Id("v")))),
+			rt.Call("uppercase", Id(k)),
+			rt.Call("p", rt.Call("load_json", Id(k))),
+			rt.Call("p", rt.Slice(Id(k), I(0), nil, nil, false)),
+			rt.Call("trim", Id(k)),
+			rt.Call("replace", Id(k), S("a"), S("b")),
+			rt.Call("url_decode", Id(k)),
+			rt.Call("set_measurement", Id(k)),
+			rt.Call("p", rt.Bin("+", Id(k), Id(k)), rt.Bin("<", Id(k), Id(k))),
+			rt.If(Id(k), rt.Block(rt.Call("p", I(1)))),
+		}
+	}
+	for _, mk := range makers {
+		for _, k := range []string{"l", "m", "x"} {
+			for ci := range consumers(k) {
+				if !w.Take() || w.Expired() {
+					continue
+				}
+				var stmts []*rt.Node
+				for _, s := range mk {
+					stmts = append(stmts, rt.Clone(s))
+				}
+				c01RunOne(w, append(stmts, consumers(k)[ci], rt.Call("p", Id(k))), true)
+			}
+		}
+	}
+}
+
 // c01Offer offers a call to the real checker; if accepted, runs it as a
 // statement and as a probed value on all points.
 func c01Offer(w *run.Worker, call *rt.Node) bool {
@@ -553,7 +606,7 @@ func init() {
 		ID:    "C01",
 		Level: "model_checking",
 		Rule: "prelude binding a variable of every dynamic type, then S in 25 syntactic roles, for S over: 38 atoms (literals incl. extreme ints, variables incl. strings that are not valid UTF-8, point keys of each stored type incl. an invalid-UTF-8 string and fields holding typed/untyped Go slices, maps, arrays and small numeric types, a tag, an absent name), " +
-			"3 unary x atoms, 14 binary x atoms^2 (thorough: all depth-2 trees over 10 type representatives), list/map literals, index chains of depth <=3 over 12 objects x 14 keys, object-less .[i], " +
+			"3 unary x atoms, 14 binary x atoms^2 (thorough: all depth-2 trees over 10 type representatives), list/map literals, index chains of depth <=3 over 16 objects x 14 keys, 8 ways of storing a list or map into itself (directly, at depth, through another container) x 17 consumers of the value, object-less .[i], " +
 			"17 slice objects x 14^3 bounds, attribute expressions; plus every builtin x every argument list of length 0..3 over a 55-candidate alphabet (length 4 over 10) that the real checker accepts; plus every pair (point-mutating builtin call; reader) over 11 keys: 11x10 renames, casts, set_tag, add_key with scalar/list/nil/void values, drop, delete-on-set-measurement, default_time, grok x 15 readers (len, slice, arithmetic, comparison, for-in, index, condition, string builtins, load_json, strfmt, cast, datetime, set_tag, rename, compound assignment); each on 4 input points; " +
 			"oracle: Run returns, no panic, error (if any) carries a position chain whose first entry names the script; distinct = (program, point, outcome class)",
 		Assumptions: []string{"panics are recovered in the worker goroutine; fatal errors kill the worker and are reported through the progress slot", "position validity is decided by C17"},
